@@ -2,6 +2,7 @@
 import numpy as np
 from hypothesis import strategies as st
 
+from checks import observe
 from checks.common import FORMS, S, Raised, as_form, call, get, maxnorm, perm_from_noise, polygon_is_convex_ccw
 from gen import poly as gp
 from gen import zoo
@@ -120,6 +121,10 @@ def _run(case, rec, planar):
         exact = geom.polygon_xy_moments_exact(ixy)
         rec.label("exact")
     _measures(rec, P, V, nexp, sig, plus_z, xy=V[:, :2], exact=exact)
+    if case.get("vform") == "float32" and vform != "float32" and inplane:
+        # float32 was drawn but the coordinates need double precision: float32-rounded twin instead (xy-plane only: rounding
+        # keeps the polygon planar there)
+        observe.dtype_twin(rec, S.Polygon, V[:, :2] if arg is None else V, () if arg is None else (argc,), sig, False)
     # (N,2) input is the same polygon
     if inplane and arg is None:
         P2 = call(S.Polygon, as_form(V[:, :2], case.get("vform", "float64"))[0])
